@@ -366,7 +366,7 @@ def serAct (E : Env) : Act → PyVal
 /-- does the string denote a quantizer (class name, possibly with arguments)?  Such strings are
     parsed by `safe_eval` (property C10) and stay opaque here. -/
 def isQuantizerString (E : Env) (s : String) : Bool :=
-  s.contains '(' || E.quantizerGlobals.contains s
+  s.toList.contains '(' || E.quantizerGlobals.contains s
 
 /-- layer constructor: `activation = get_quantizer(activation)` if not None -/
 def deserAct (E : Env) : PyVal → Except Err Act
